@@ -93,7 +93,7 @@ impl Property for C05 {
     fn components_real(&self) -> Vec<&'static str> { vec!["production::connection_optimized::OptimizedConnectionHandler transaction state machine (MULTI/EXEC/DISCARD/WATCH/UNWATCH, queueing, EXECABORT, watch comparison) through hook H1", "ShardedActorState + shard actors + CommandExecutor for every queued and plain command"] }
     fn components_stubbed(&self) -> Vec<&'static str> { vec!["TCP -> SimStream, one command per read", "the oracle twin executes plain commands through ShardedActorState::execute on a second state (it has no transaction logic of its own)"] }
     fn assumptions(&self) -> Vec<&'static str> { vec!["'value of a watched key' = type and content, not TTL", "nested MULTI and WATCH inside MULTI answer an error without aborting the transaction (Redis behaviour)", "SPOP not generated"] }
-    fn required_probes(&self) -> Vec<&'static str> { vec!["foreign_write_between_watch_and_exec", "exec_applied", "exec_aborted_by_watch", "execabort", "discard", "overlapping_exec"] }
+    fn required_probes(&self) -> Vec<&'static str> { vec!["foreign_write_between_watch_and_exec", "exec_applied", "exec_aborted_by_watch", "execabort", "discard", "overlapping_exec", "executor_level_run", "stray_exec_or_discard_outside_multi"] }
     fn runs(&self, tier: Tier) -> u64 { match tier { Tier::Quick => 150000, Tier::Thorough => 3000000 } }
 
     fn run(&self, src: &mut Src, ctx: &RunCtx) -> RunReport {
@@ -148,6 +148,10 @@ impl Property for C05 {
         });
         bcmds.sort_by_key(|x| x.0);
         let overlap_cmd: Option<Cmd> = if overlap_mode { Some(gen1(src, &mut g)) } else { None };
+        // every sixth run drives the simulation-path implementation instead: the executor's own MULTI/EXEC/
+        // WATCH state (one executor = one client; the "other client" writes through the same executor while no
+        // transaction is open), with stray EXEC/DISCARD outside MULTI thrown in
+        if src.below(6) == 0 { return self.run_executor_mode(src, ctx, &setup, &a, &bcmds); }
         let yield_bias = 1 + src.below(7);
         let seed = src.u64_any();
         let trace = ctx.trace;
@@ -359,6 +363,123 @@ impl Property for C05 {
 }
 
 /// EXEC replies hold the queued commands' replies; unordered members inside are compared as multisets.
+impl C05 {
+    fn run_executor_mode(&self, src: &mut Src, ctx: &RunCtx, setup: &[Cmd], a: &[AStep], bcmds: &[(usize, Cmd)]) -> RunReport {
+        use crate::props::c17::snapshot;
+        use redis_sim::redis::CommandExecutor;
+        let mut rep = RunReport::default();
+        rep.probe("executor_level_run");
+        let b = |x: &str| x.as_bytes().to_vec();
+        let mut real = CommandExecutor::new();
+        let mut twin = CommandExecutor::new();
+        let run = |ex: &mut CommandExecutor, c: &Cmd| -> R { match parse_cmd(c) { Ok(cmd) => R::from_resp(&ex.execute(&cmd)), Err(e) => R::Err(e) } };
+        let strip = |m: std::collections::BTreeMap<String, String>| -> std::collections::BTreeMap<String, String> { m.into_iter().map(|(k, v)| { let v2 = v.split(" pttl=").next().unwrap_or("").to_string(); (k, v2) }).collect() };
+        for c in setup { let _ = run(&mut real, c); let _ = run(&mut twin, c); }
+        let stray: Vec<u64> = (0..a.len()).map(|_| src.below(10)).collect();
+        let mut in_multi = false;
+        let mut queued: Vec<Cmd> = Vec::new();
+        let mut watched: Vec<(String, Option<String>)> = Vec::new();
+        let mut fp = fnv(0xE0, &[a.len() as u8]);
+        macro_rules! fail { ($k:expr, $m:expr) => {{ rep.violate($k, $m); rep.evals = rep.evals.max(1); rep.fingerprint = fp; return rep; }} }
+        for (i, step) in a.iter().enumerate() {
+            // the other client's writes land in the gaps where no transaction is open
+            for (pos, c) in bcmds.iter().filter(|(p, _)| *p == i) {
+                let _ = pos;
+                if in_multi { continue; }
+                let (ra, rt) = (run(&mut real, c), run(&mut twin, c));
+                rep.log(ctx.trace, || format!("B: {} -> {}", show_cmd(c), ra.show()));
+                if !ra.eq_unordered(&rt) { fail!("C05/executor/plain-reply-differs", format!("{} replied {} on the executor that had seen WATCH/MULTI traffic and {} on a fresh twin", show_cmd(c), ra.show(), rt.show())); }
+                if !watched.is_empty() { rep.probe("foreign_write_between_watch_and_exec"); }
+            }
+            // a stray EXEC or DISCARD outside MULTI: an error, and the watches stay in force
+            if !in_multi && matches!(step, AStep::Multi) && stray[i] < 2 {
+                let c = vec![b(if stray[i] == 0 { "EXEC" } else { "DISCARD" })];
+                let r = run(&mut real, &c);
+                rep.log(ctx.trace, || format!("A: {} (outside MULTI) -> {}", show_cmd(&c), r.show()));
+                rep.probe("stray_exec_or_discard_outside_multi");
+                if !r.is_err() { fail!("C05/executor/stray-exec-accepted", format!("{} outside MULTI replied {}", show_cmd(&c), r.show())); }
+            }
+            let c = a_cmd(step);
+            fp = fnv(fp, show_cmd(&c).as_bytes());
+            match step {
+                AStep::BadQueued(_) => continue, // rejected by the parser: never reaches an executor
+                AStep::Watch(ks) if !in_multi => {
+                    let r = run(&mut real, &c);
+                    rep.log(ctx.trace, || format!("A: {} -> {}", show_cmd(&c), r.show()));
+                    if r != R::ok() { fail!("C05/executor/watch-reply", format!("{} replied {}", show_cmd(&c), r.show())); }
+                    let cur = strip(snapshot(&mut twin));
+                    for k in ks { let k = String::from_utf8_lossy(k).into_owned(); watched.push((k.clone(), cur.get(&k).cloned())); }
+                }
+                AStep::Unwatch if !in_multi => { let _ = run(&mut real, &c); watched.clear(); }
+                AStep::Multi => {
+                    let r = run(&mut real, &c);
+                    rep.log(ctx.trace, || format!("A: MULTI -> {}", r.show()));
+                    if in_multi { if !r.is_err() { fail!("C05/executor/nested-multi-accepted", format!("MULTI inside MULTI replied {}", r.show())); } }
+                    else { if r != R::ok() { fail!("C05/executor/multi-reply", format!("MULTI replied {}", r.show())); } in_multi = true; queued.clear(); }
+                }
+                AStep::Nested(_) | AStep::Watch(_) | AStep::Unwatch if in_multi => {
+                    let r = run(&mut real, &c);
+                    rep.log(ctx.trace, || format!("A: {} (inside MULTI) -> {}", show_cmd(&c), r.show()));
+                    let name = String::from_utf8_lossy(&c[0]).to_uppercase();
+                    if name == "UNWATCH" { if r == R::Simple("QUEUED".into()) { queued.push(c.clone()); } }
+                    else if !r.is_err() { fail!("C05/executor/nested-accepted", format!("{} inside MULTI replied {}", show_cmd(&c), r.show())); }
+                }
+                AStep::Body(_) | AStep::Plain(_) | AStep::Nested(_) | AStep::Watch(_) | AStep::Unwatch => {
+                    if in_multi {
+                        if parse_cmd(&c).is_err() { continue; } // rejected by the parser: never reaches the executor
+                        let r = run(&mut real, &c);
+                        rep.log(ctx.trace, || format!("A: {} -> {}", show_cmd(&c), r.show()));
+                        if r != R::Simple("QUEUED".into()) { fail!("C05/executor/queued-command-answered", format!("{} inside MULTI replied {} instead of QUEUED", show_cmd(&c), r.show())); }
+                        queued.push(c.clone());
+                    } else {
+                        let (ra, rt) = (run(&mut real, &c), run(&mut twin, &c));
+                        rep.log(ctx.trace, || format!("A: {} -> {}", show_cmd(&c), ra.show()));
+                        if !ra.eq_unordered(&rt) { fail!("C05/executor/plain-reply-differs", format!("{} replied {} but {} on the twin", show_cmd(&c), ra.show(), rt.show())); }
+                    }
+                }
+                AStep::Discard => {
+                    let r = run(&mut real, &c);
+                    rep.log(ctx.trace, || format!("A: DISCARD -> {}", r.show()));
+                    if in_multi { if r != R::ok() { fail!("C05/executor/discard-reply", format!("DISCARD replied {}", r.show())); } in_multi = false; queued.clear(); watched.clear(); rep.probe("discard"); }
+                    else if !r.is_err() { fail!("C05/executor/stray-exec-accepted", format!("DISCARD outside MULTI replied {}", r.show())); }
+                }
+                AStep::Exec => {
+                    let r = run(&mut real, &c);
+                    rep.log(ctx.trace, || format!("A: EXEC -> {}", r.show()));
+                    rep.evals += 1;
+                    if !in_multi { if !r.is_err() { fail!("C05/executor/stray-exec-accepted", format!("EXEC outside MULTI replied {}", r.show())); } continue; }
+                    in_multi = false;
+                    let cur = strip(snapshot(&mut twin));
+                    let changed: Vec<&(String, Option<String>)> = watched.iter().filter(|(k, v)| cur.get(k).cloned() != *v).collect();
+                    let body = std::mem::take(&mut queued);
+                    if !changed.is_empty() {
+                        rep.probe("exec_aborted_by_watch");
+                        let (k, v) = changed[0];
+                        if !matches!(r, R::Bulk(None) | R::Arr(None)) { fail!("C05/executor/watch-change-not-detected", format!("watched key {:?} was {:?} at WATCH and is {:?} at EXEC, but EXEC replied {} instead of nil", k, v, cur.get(k), r.show())); }
+                    } else {
+                        rep.probe("exec_applied");
+                        let results: Vec<R> = body.iter().map(|qc| run(&mut twin, qc)).collect();
+                        if !exec_reply_eq(&R::Arr(Some(results.clone())), &r) { fail!("C05/executor/exec-result-differs-from-sequential", format!("EXEC of {:?} replied {} but the same commands run consecutively reply {}", body.iter().map(|c| show_cmd(c)).collect::<Vec<_>>(), r.show(), R::Arr(Some(results)).show())); }
+                    }
+                    watched.clear();
+                }
+            }
+            if !in_multi {
+                let (sr, st) = (strip(snapshot(&mut real)), strip(snapshot(&mut twin)));
+                if sr != st {
+                    let k = sr.keys().chain(st.keys()).find(|k| sr.get(*k) != st.get(*k)).cloned().unwrap_or_default();
+                    fail!("C05/executor/state-differs-from-sequential", format!("after {}: key {:?} is {:?} but {:?} when the same commands run without MULTI", show_cmd(&c), k, sr.get(&k), st.get(&k)));
+                }
+            }
+        }
+        rep.evals = rep.evals.max(1);
+        rep.nontrivial = rep.probes.contains_key("foreign_write_between_watch_and_exec");
+        rep.fingerprint = fp;
+        rep.sample = Some(json!({"mode": "executor-level", "script": a.iter().map(|s| show_cmd(&a_cmd(s))).collect::<Vec<_>>()}));
+        rep
+    }
+}
+
 fn exec_reply_eq(expect: &R, got: &R) -> bool {
     match (expect, got) {
         (R::Arr(Some(a)), R::Arr(Some(b))) => a.len() == b.len() && a.iter().zip(b.iter()).all(|(x, y)| x.eq_unordered(y)),
